@@ -114,18 +114,21 @@ static std::vector<int> lane_weights(const std::string &lane, Rng &r) {
         w[OP_flush] = 3; w[OP_kill] = 3; w[OP_dim_append] = 3;
     } else if (lane == "tree" || lane == "durable") {
         w_set(w, links, 5); w_set(w, attrs, 4); w_set(w, props, 4); w_set(w, deletes, 2); w_set(w, arrdata, 2); w_set(w, dimops, 3); w_set(w, frameops, 2);
-        w[OP_arr_write] = 5; w[OP_reopen] = 12; w[OP_flush] = 4; w[OP_kill] = 4; w[OP_clock] = 4;
+        w[OP_arr_write] = 5; w[OP_reopen] = 12; w[OP_flush] = 4; w[OP_kill] = 4; w[OP_clock] = 4; w[OP_mk_graph] = 3;
         if (lane == "durable") { w[OP_flush] = 14; w[OP_kill] = 14; w[OP_flush_fault] = 6; w[OP_use_stale] = 14; w[OP_keep] = 4; w[OP_drop] = 1; w[OP_reopen] = 10;
                                  w[OP_arr_read] = 6; w[OP_frame_read_row] = 4; w[OP_dim_read] = 3; }
     } else if (lane == "names") {
+        w[OP_mk_graph] = 4;
         w_set(w, create_core, 14); w_set(w, deletes, 7); w[OP_prop_create] = 12; w[OP_feat_create] = 8; w[OP_tag_addref] = 10; w[OP_tag_rmref] = 5;
         w[OP_group_add] = 10; w[OP_group_rm] = 5; w[OP_add_source] = 10; w[OP_rm_source] = 5; w[OP_reopen] = 10; w[OP_set_sources] = 2; w[OP_tag_setrefs] = 2; w[OP_group_set] = 2;
     } else if (lane == "delete") {
+        w[OP_mk_graph] = 8;
         w_set(w, create_core, 10); w_set(w, links, 10); w_set(w, deletes, 9); w[OP_prop_create] = 5; w[OP_dim_append] = 8; w[OP_reopen] = 8; w[OP_use_stale] = 5; w[OP_abuse_tag] = 2;
     } else if (lane == "reject") {
         w_set(w, create_core, 9); w_set(w, links, 6); w_set(w, attrs, 5); w_set(w, props, 6); w_set(w, arrdata, 5); w_set(w, dimops, 7); w_set(w, frameops, 4); w_set(w, deletes, 2);
-        w[OP_reopen] = 5;
+        w[OP_reopen] = 5; w[OP_mk_graph] = 3; w[OP_group_set] = 9; w[OP_tag_setrefs] = 9; w[OP_set_sources] = 6;
     } else if (lane == "modes" || lane == "version") {
+        w[OP_mk_graph] = 3;
         w_set(w, links, 4); w_set(w, attrs, 3); w_set(w, props, 4); w_set(w, arrdata, 3); w_set(w, dimops, 4); w_set(w, frameops, 3); w_set(w, deletes, 1);
         w[OP_reopen] = 8;
         if (lane == "modes") { w[OP_ro_catalogue] = 8; w[OP_mode_probe] = 14; }
@@ -146,6 +149,7 @@ static std::vector<int> lane_weights(const std::string &lane, Rng &r) {
     } else if (lane == "abuse") {
         w_set(w, abuse, 14); w_set(w, links, 4); w_set(w, deletes, 5); w_set(w, arrdata, 4); w_set(w, dimops, 6); w_set(w, frameops, 5); w_set(w, props, 3); w_set(w, attrs, 2);
         w[OP_use_stale] = 12; w[OP_keep] = 5; w[OP_drop] = 2; w[OP_reopen] = 6; w[OP_tag_pos] = 6; w[OP_tag_extent] = 6; w[OP_tag_units] = 4;
+        w[OP_mk_graph] = 4; w[OP_abuse_tagging] = 16;
     }
     // swarm: switch a random third of the non-essential kinds off, boost a few
     for (int k = 0; k < OP_COUNT; k++) {
@@ -177,6 +181,11 @@ Plan generate_plan(const std::string &lane, uint64_t seed, int tier) {
     s.weights = lane_weights(lane, r);
     const std::vector<int> &w = s.weights;
 
+    // names of every length: one "long" length per run, drawn either uniformly or next to a power of two, used with +-1 around it
+    // (a name of a given length is always the same string, so long names collide with one another like short ones do)
+    int long_len = r.chance(1, 2) ? r.range(17, 300) : (1 << r.range(4, 8)) + r.range(-2, 2);
+    auto long_name = [&](int len) { std::string n = "L" + std::to_string(len) + "_"; while ((int) n.size() < len) n += (char) ('a' + (n.size() % 26)); n.resize((size_t) (len < 1 ? 1 : len)); return n; };
+    bool reject_lane = lane == "reject";
     // every plan starts with a little structure
     auto mk = [&](int kind) {
         Op op; op.kind = kind;
@@ -184,7 +193,10 @@ Plan generate_plan(const std::string &lane, uint64_t seed, int tier) {
         op.a[5] = r.chance(1, 30) ? 1 : (int) r.below(1000) + 2;   // a[5]==1 selects rare variants (name = sibling id)
         op.sub = r.next() >> 1;
         int ns = r.range(0, 99);
-        op.s = ns < 3 ? "" : ns < 6 ? "a/b" : kNamePool[r.below((uint64_t) s.name_pool)];
+        op.s = ns < 3 ? "" : ns < 6 ? "a/b" : ns < 14 ? long_name(long_len + r.range(-1, 1)) : kNamePool[r.below((uint64_t) s.name_pool)];
+        // the reject lane draws its variant selectors from a small range half of the time: the invalid twins of an operation sit at
+        // small residues of these selectors, so this makes every rejection class an everyday event there
+        if (reject_lane && r.chance(1, 2)) for (int k = 2; k < 5; k++) op.a[k] = (int) r.below(8);
         return op;
     };
     if (lane == "ids" || lane == "xkill") {
@@ -212,6 +224,14 @@ Plan generate_plan(const std::string &lane, uint64_t seed, int tier) {
         Op *o = pre(OP_create_array, "a"); o->a[1] = 0; o->a[5] = 0;
         o = pre(OP_create_section, "a"); o->a[1] = 0;
         o = pre(OP_create_tag, "a"); o->a[1] = 0;
+        if (lane == "delete" || r.chance(1, 2)) { o = pre(OP_mk_graph, "%"); o->a[0] = 0; }
+    }
+    if (lane == "reject") {
+        // two blocks with the same linked structure in each: "an entity of another block" (with and without a local namesake) is
+        // available to every link operation from the start
+        Op *o = pre(OP_mk_graph, "%"); o->a[0] = 0;
+        o = pre(OP_create_block, "b");
+        o = pre(OP_mk_graph, "%"); o->a[0] = 1;
     }
     int pending_ro = 0;     // ops left in a read-only session before the plan reopens RW
     bool after_flush = false;
